@@ -44,13 +44,13 @@ func init() {
 	register(&PropertyDef{
 		ID:    "C19",
 		Title: "No request can crash the service",
-		Explanation: "Decides, from the type-checked SSA of /repo, eight classes of request-triggered crashes in module code behind the RPC handlers (D1-D4, D7 and D8 on the handler paths, D5 in the exported helpers of pkg/cryptoutil, D6 at every module call of a length-checking library function, where only request bytes, protobuf message fields and arguments of the exported helpers count as untrusted). Handlers are the methods of the module types implementing protocoltypes.ProtocolServiceServer and outofstoremessagetypes.OutOfStoreMessageServiceServer; besides the handlers, the entry points are the callbacks orbit-db invokes while a handler is served and which the module call graph cannot see (functions with the signature of iface.StoreConstructor: called when a handler opens the stores of a group; methods of module types implementing iface.StoreIndex: called when a handler appends to or reads a store), each listed in the notes; reachable code is the closure over static calls, interface calls resolved to module implementations, closures, function values taken in reachable code and functions stored in package-level variables that reachable code reads. " +
+		Explanation: "Decides, from the type-checked SSA of /repo, eight classes of request-triggered crashes in module code behind the RPC handlers (D1-D4, D7 and D8 on the handler paths, D5 in the exported helpers of pkg/cryptoutil, D6 at every module call of a length-checking library function, where only protobuf message fields (request messages included), arguments of the exported helpers and whole-stream reads count as untrusted). Handlers are the methods of the module types implementing protocoltypes.ProtocolServiceServer and outofstoremessagetypes.OutOfStoreMessageServiceServer; besides the handlers, the entry points are the callbacks orbit-db invokes while a handler is served and which the module call graph cannot see (functions with the signature of iface.StoreConstructor: called when a handler opens the stores of a group; methods of module types implementing iface.StoreIndex: called when a handler appends to or reads a store), each listed in the notes; reachable code is the closure over static calls, interface calls resolved to module implementations, closures, function values taken in reachable code and functions stored in package-level variables that reachable code reads. " +
 			"(D1) every panic statement and every call of a process-terminating library function (os.Exit, log.Fatal*/Panic*, zap Fatal/Panic) in reachable code is one obligation; it is a violation when a branch condition that decides whether it executes derives by value flow from a handler's request parameter (operands to results, call arguments to results and to the parameters of module callees, stored values and out-parameters to local cells; contexts excluded), or when it is unconditional up to a handler. The panics go/ssa synthesises for select dispatch are not source panics and are skipped. " +
 			"(D2) the pointer fields of a handler receiver type that a reachable function sets to nil are nullable (today: the account group context, cleared on deactivation). Every dereference of a value read from such a field, or returned by a function that may return it (accessor summaries), must be dominated by the non-nil side of a nil test of that same value; a test of another read of the field, or an assignment of a non-nil value to it, counts only while a lock of the owning struct is held from there to the use. " +
 			"(D3) pointer-to-message fields of a handler's request parameter are nullable (proto3 leaves them nil when absent): a field access, or passing the value to a module function whose summary says it dereferences that parameter on a path without a nil test (generated getters come out nil-safe from their bodies), must be dominated by a nil test of the value or of another read of the same request field. " +
 			"(D4) a module function with a return that carries nil (or a nullable value) together with a nil error is a nullable source for all its callers; a function that returns nil with a non-nil error is a nullable source at the points not dominated by the nil side of a test of that call's error (helpers that hand back the error they were given are seen through). Correlated results are honoured (the comma-ok idiom of module functions): when every nil-without-error return of the callee carries the same constant in one of its bool results and every other success return carries the opposite constant, a use dominated by the side of a test of that result, of that very call, on which it has the opposite value is guarded; wrappers that pass the value on only on that side therefore do not become nullable sources themselves, and a function that returns the value together with that very flag of the same call (return f()) inherits the correlation, merged with its own constant returns. Return statements the compiler merged into one return of phis are read per predecessor, and a named result that no store can reach on the way to a bare return counts as its zero value.One obligation per (caller, callee) pair in reachable code. The same engine is also run on the module's remaining non-test functions (the exported API no handler reaches, e.g. WeshOrbitDB.OpenGroupReplication); what it finds there is outside the property and is only written to the notes, prefixed \"outside the property's scope:\". " +
 			"(D5) in the exported functions of pkg/cryptoutil, every slice expression with a bound, index expression or slice-to-array conversion on a byte slice needs its length established. With constant bounds (r[:32], x[3], conversion to [N]byte) the length facts of D6 are used: len >= bound must follow from a dominating comparison of len of that slice with a constant (so a weakened test such as len > 0 is reported), from a slice of an array or a make, or from the slice being the result of a module function all of whose non-nil returns have that fact, at a call site where its error was tested nil. With bounds computed at run time (data[:n]) the operation must be control-dependent on a comparison involving len of that same slice; whether that comparison is the right one is not decided. " +
-			"(D6) every module call of a library function that panics when a byte-slice argument has the wrong length (table read off the module's actual callees: ed25519.NewKeyFromSeed 32, ed25519.Sign/PrivateKey.Sign 64, ed25519.Verify 32, PrivateKey.Seed/Public >= 32, cipher.NewCTR/CBC/CFB/OFB IV == block size, AEAD Seal/Open nonce == nonce size, binary.ByteOrder (Put)UintN >= N/8, a []byte key boxed into aead/ecdh ComputeSecret 32) and every slice-to-array conversion is one obligation. The required length must hold on every path: slice of a fixed-size array or with constant bounds, make with a constant (or, for run-time sizes, [:n] / make(n)), result of a module function whose returns all have it, parameter for which every static module caller has it, X25519 shared secret, io.ReadAll(io.LimitReader(hkdf, K)) on the nil-error side (an HKDF stream delivers 255 hash lengths before failing, so a nil error means exactly K bytes), or a comparison of len of the same value (or of another read of the same access path) with a constant whose outcome on the dominating edge gives the bound: a comparison with the wrong constant does not count. If it does not hold, the site is a violation when the bytes derive from a handler's request (D1's value flow), are read from a field of a protobuf message, or reach the call as the argument of an exported pkg/cryptoutil function (module callers, when there are any, count for establishing the length, not for trusting the bytes); otherwise it is listed as an internal buffer. For run-time sizes (block size, nonce size) an equality test against any run-time value or any constant length is accepted as written. " +
+			"(D6) every module call of a library function that panics when a byte-slice argument has the wrong length (table read off the module's actual callees: ed25519.NewKeyFromSeed 32, ed25519.Sign/PrivateKey.Sign 64, ed25519.Verify 32, PrivateKey.Seed/Public >= 32, cipher.NewCTR/CBC/CFB/OFB IV == block size, AEAD Seal/Open nonce == nonce size, binary.ByteOrder (Put)UintN >= N/8, a []byte key boxed into aead/ecdh ComputeSecret 32) and every slice-to-array conversion is one obligation. The required length must hold on every path: slice of a fixed-size array or with constant bounds, make with a constant (or, for run-time sizes, [:n] / make(n)), result of a module function whose returns all have it, parameter for which every static module caller has it, X25519 shared secret, io.ReadAll(io.LimitReader(hkdf, K)) on the nil-error side (an HKDF stream delivers 255 hash lengths before failing, so a nil error means exactly K bytes), or a comparison of len of the same value (or of another read of the same access path) with a constant whose outcome on the dominating edge gives the bound: a comparison with the wrong constant does not count. A field of a module struct has the meet of the facts of every value stored into it anywhere in the module (a length buffer made with a constant size in every constructor), unless its address escapes. If the required length does not hold: when the known length excludes it (a seed read with the wrong constant limit) the site is a violation whatever the bytes are; otherwise it is a violation when the backward slice of the argument (through slicing, conversions, phis, module callees and the arguments of module callers) reaches a field of a protobuf message (every request message is one), the argument of an exported pkg/cryptoutil function (module callers, when there are any, count for establishing the length, not for trusting the bytes) or a whole-stream read (io.ReadAll, os.ReadFile); otherwise it is listed as an internal buffer. This classification is local to the argument's definition: it does not use D1's request-influence fixpoint, so an edit elsewhere cannot change it. For run-time sizes (block size, nonce size) an equality test against any run-time value or any constant length is accepted as written. " +
 			"(D7) for every close(ch) in reachable code whose channel can be traced to make(chan) instructions (through local variables, variables captured by closures, phis and the arguments of static calls): every send on the same channel objects must run on the same goroutine as the close, and no second close may follow it. A function runs on goroutine go:<f> when it is the target of a go statement, otherwise on the goroutines of its callers (a closure that is called, deferred or handed to a callee runs on its creator's goroutine). A close in the creating function on a path that shares no CFG path with the go statement that starts the sender (early error return before the goroutine is started) is accepted; a deferred close counts from its defer statement. Closes of channels held in struct fields, maps or returned by calls are listed in the notes as not decided; synchronisation that orders a foreign close after the last send (WaitGroup) is not recognised and would be reported. " +
 			"(D8) every type assertion without comma-ok in reachable code is one obligation. It is accepted when the operand's static interface type already satisfies the asserted interface, or when a successful comma-ok assertion of the same value to the same (or an implying) type dominates it. Otherwise the set of dynamic types of the operand is derived where the module's code determines it: values boxed in the module, results of module functions, phis and captured variables, values sent on a channel created in reachable code, the event types an event-bus subscription was created for (Subscribe(new(T)) or a literal list; libp2p delivers only those), proto.Clone of such a value, and a field of the entries of a package-level map literal that is assigned nowhere else (the event-type table); every member of the set must be identical to, or implement, the asserted type, and the report names the ones that do not. Where the set cannot be derived (results of dependencies such as BaseStore.Index, container/list and container/heap elements) the site is listed as not decided, never as a violation. " +
 			"Not decided: panics inside dependencies (orbit-db, libp2p, protobuf, grpc) and in callbacks of dependencies other than the two kinds listed above (libp2p stream handlers, event-bus subscribers, access-controller constructors); index, conversion, type-assertion, nil-map-write and division panics not rooted in the sources above; nil values that travel through maps, channels, struct literals or captured variables; whether the length comparison of D5 is the right one (only its presence and position); an error variable that lives in a captured cell and is tested after a merge; data races other than the lock condition of D2; resource exhaustion and dead-locks. The absence of a recovery interceptor is noted, not required.",
